@@ -1355,6 +1355,25 @@ def abstract_nl(fs):
     return [walk(simplify(f)) for f in fs]
 
 
+def ackermannize(fs):
+    """replace every uninterpreted-function application by a fresh constant (congruence dropped: sound for proving)"""
+    memo = {}; cache = {}
+    def walk(x):
+        k = x.get_id()
+        if k in memo: return memo[k]
+        if not z3.is_app(x) or x.num_args() == 0:
+            memo[k] = x; return x
+        if x.decl().kind() == z3.Z3_OP_UNINTERPRETED:
+            r = cache.get(k)
+            if r is None: r = cache[k] = z3.Const('ack!%d' % len(cache), x.sort())
+            memo[k] = r; return r
+        ch = [walk(c) for c in x.children()]
+        try: r = x.decl()(*ch)
+        except Exception: r = x
+        memo[k] = r; return r
+    return [walk(simplify(f)) for f in fs]
+
+
 def _solve(claim, assumptions, axioms, timeout, tactic, want_model=True):
     sol = Solver() if tactic is None else z3.Tactic(tactic).solver()
     sol.set('timeout', int(timeout * 1000))
@@ -1420,6 +1439,11 @@ def prove(claim, assumptions=(), axioms=(), timeout=60, tactic=None, abstract=Tr
             fs = abstract_nl(list(axioms) + list(assumptions) + [Not(claim)])
             return _solve(None, fs, (), min(timeout, 30), None)
         res, m = hard(stage1, min(timeout, 30))
+        if res == 'unsat': return 'proved', None
+        def stage2():
+            fs = ackermannize(list(axioms) + list(assumptions) + [Not(claim)])
+            return _solve(None, fs, (), min(timeout, 30), None)
+        res, m = hard(stage2, min(timeout, 30))
         if res == 'unsat': return 'proved', None
     res, m = hard(lambda: _solve(claim, assumptions, axioms, timeout, tactic), timeout)
     return {'unsat': 'proved', 'sat': 'refuted'}.get(res, 'unknown'), m
